@@ -92,6 +92,7 @@ type Ctx struct {
 	assumedTexts    map[string]bool
 	storeInfos      map[string]*storeInfo
 	allocOf         map[string]int
+	allocKeys       map[string][]string // own reference -> the "frame:block" keys executing when it was allocated
 	refEpoch        map[string]int
 	allocOrd        int
 	noNote          int // >0 while havocking at a loop header (not a write of the loop body)
@@ -152,6 +153,7 @@ func (c *Ctx) resetPass() {
 	c.assumedTexts = nil
 	c.storeInfos = nil
 	c.allocOf = map[string]int{}
+	c.allocKeys = map[string][]string{}
 	c.refEpoch = map[string]int{}
 	c.allocOrd = 0
 }
@@ -371,9 +373,31 @@ func (c *Ctx) writesOnlyFresh(old, t *Term) bool {
 	return false
 }
 
+// freshTargets lists the own references (allocations of this unit) at which t extends old by stores.
+func (c *Ctx) freshTargets(old, t *Term) []string {
+	var out []string
+	for i := 0; i < 64 && old != nil; i++ {
+		if t.S == old.S {
+			return out
+		}
+		si := c.storeInfos[t.S]
+		if si == nil {
+			return out
+		}
+		out = append(out, si.idx.S)
+		t = si.base
+	}
+	return out
+}
+
 func (c *Ctx) heapSet(st *State, name string, t *Term) {
 	if strings.HasPrefix(string(c.heapSorts[name]), "(Array Int ") && c.writesOnlyFresh(st.heap[name], t) {
 		c.noteWrite("fresh:" + name)
+		// also record where each written object was allocated ("frame:block" keys live at its allocation): a loop whose
+		// body contains one of these keys writes an object of its own iteration, not one that existed before the loop
+		for _, r := range c.freshTargets(st.heap[name], t) {
+			c.noteWrite("freshat:" + name + "|" + strings.Join(c.allocKeys[r], ","))
+		}
 	} else {
 		c.noteWrite(name)
 	}
